@@ -1,5 +1,6 @@
 import SeataModel.Driver.AT
 import SeataModel.AT.Locks
+import SeataModel.AT.KeyText
 namespace Seata.Driver.C03
 open Seata Seata.DB Seata.AT Seata.AT.Locks Seata.Driver Seata.Driver.ATParse
 
@@ -23,9 +24,25 @@ partial def parseEvents : List String → Option (List Ev)
       | _, _ => none
     else none
 
+/-- `keytext <hex of the registration text>`: the keys the coordinator reads out of the text a registration
+    carried (`TABLE:k_k,k_k;TABLE:…;`), by `KeyText.parseKeys`, sorted -/
+def keyTextOf (txt : List Char) : String :=
+  let segs := (Seata.AT.KeyText.splitOn ';' txt).filter (· != [])
+  let keys := segs.foldl (fun acc seg =>
+    match seg.dropWhile (· != ':') with
+    | [] => acc ++ ["?" ++ String.ofList seg]
+    | _ :: body =>
+      acc ++ ((Seata.AT.KeyText.parseKeys body).filter (· != [[]])).map
+        fun k => "_".intercalate (k.map String.ofList)) []
+  if keys.isEmpty then "-" else ",".intercalate (sortStrs keys).eraseDups
+
 def handle (ws : List String) : String :=
   match ws with
   | "at" :: _ => Seata.Driver.AT.handle ws
+  | ["keytext", h] =>
+    (match ofHex h with
+     | some bs => keyTextOf (bs.map fun b => Char.ofNat b.toNat)
+     | none => "bad-hex")
   | ["skip"] => "skip"      -- a case decided by the oracle on the implementation alone
   | ["sfu", e, m, r] =>
     let reply : Option Reply := if r == "lockable" then some .lockable else if r == "conflict" then some .conflict
